@@ -41,7 +41,9 @@ RULE = ("explicit-state BFS: start states = every TaxonNamespace(...) constructo
         "TaxonNamespace(ns), copy.copy, copy.deepcopy) with every argument choice (labels a/A/b incl. duplicates, "
         "every member index, is_case_sensitive None/True/False, first_match_only both) is applied to a fresh rebuild, "
         "up to the depth bound and <= max_members live members; a case = one transition (state, op) or one visited "
-        "state (full observation suite: every subset of members, every query label x case rule); non-trivial = the "
+        "state (full observation suite: every subset of members, every query label x case rule); the same BFS is run "
+        "a second time as a smaller layer over the labels ''/a/A (empty string as a label, its own depth / member "
+        "bounds; a state visited in both layers is counted in each); non-trivial = the "
         "state (pre-state for transitions) has >= 2 members")
 ASSUMPTIONS = [
     "the namespace's state is exactly its fields _taxa, _taxon_accession_index_map, _accession_index_taxon_map, "
@@ -66,6 +68,9 @@ ASSUMPTIONS = [
     "dead bits of removed taxa are allowed",
     "multi-label get_taxa() is compared as a set (the statement fixes the order only within one label's matches)",
     "sort(): any ordering that is sorted by the key is accepted (ties are the library's business)",
+    "the empty string is a legal label and is matched like any other string (lower('') == ''); a member labelled '' "
+    "is rendered by bitmask_as_newick_string as an empty token, which cannot be told from 'no taxon', so such "
+    "members are left out of the comparison of Newick renderings (non-deciding there, deciding everywhere else)",
 ]
 MANIFEST = {
     "engine": "E2-HIST",
@@ -93,12 +98,40 @@ KNOWN_NS_FIELDS = {"comments", "is_mutable", "is_case_sensitive", "_accession_in
 KNOWN_TAXON_FIELDS = {"_label", "_lower_cased_label", "comments", "_annotations"}
 
 
+# Two layers of the same BFS: "main" (labels a/A/b) and a smaller "empty" layer whose label alphabet
+# contains the empty string (a legal label: lower('') == '' and '' matches only '').
+ALPHA = {
+    "main": {"labels": LABELS, "query": QUERY_LABELS, "list": LIST_LABELS,
+             "lookup_first": ("a", "A"), "lookup_all": ("a",)},
+    "empty": {"labels": ("", "a", "A"), "query": ("", "a", "A", "b"), "list": ("", "a", "A"),
+              "lookup_first": ("", "a"), "lookup_all": ("",)},
+}
+_LAYER = ["main"]
+
+
+def A():
+    return ALPHA[_LAYER[0]]
+
+
+def set_layer(layer):
+    _LAYER[0] = layer if layer in ALPHA else "main"
+
+
 def bounds(tier):
     if tier == "quick":
         return {"depth": 4, "max_members": 4, "labels": list(LABELS), "start_label_sequences_up_to": 2,
-                "case_args": list(CS3), "chunk_states": 40}
+                "case_args": list(CS3), "chunk_states": 40,
+                "empty_label_layer": {"depth": 3, "max_members": 3, "labels": list(ALPHA["empty"]["labels"]),
+                                      "start_label_sequences_up_to": 2, "chunk_states": 40}}
     return {"depth": 5, "max_members": 4, "labels": list(LABELS), "start_label_sequences_up_to": 3,
-            "case_args": list(CS3), "chunk_states": 60}
+            "case_args": list(CS3), "chunk_states": 60,
+            "empty_label_layer": {"depth": 4, "max_members": 4, "labels": list(ALPHA["empty"]["labels"]),
+                                  "start_label_sequences_up_to": 2, "chunk_states": 60}}
+
+
+def layer_bounds(tier, layer):
+    b = bounds(tier)
+    return b if layer == "main" else b["empty_label_layer"]
 
 
 # ---------------------------------------------------------------------------
@@ -126,7 +159,7 @@ def pretty(state):
     cs, mut, counter, members = state[:4]
     hid = hidden_items(state) if len(state) > 4 else []
     return "cs=%s mutable=%s count=%d [%s]%s" % ("T" if cs else "F", "T" if mut else "F", counter,
-                                                  ", ".join("%s@%d%s" % (l, i, "*" if c else "") for l, i, c in members),
+                                                  ", ".join("%s@%d%s" % (l if l != "" else "''", i, "*" if c else "") for l, i, c in members),
                                                   "".join(" %s=%s" % (n, show_enc(e)) for n, e in hid))
 
 
@@ -467,7 +500,7 @@ def enabled_ops(state, b):
         ops.append(("sort", v, 1))      # 1 = preceded by the label lookups on the same live object
     ops.append(("reverse", 0))
     ops.append(("reverse", 1))
-    ops.extend(LOOKUP_OPS)
+    ops.extend(lookup_ops())
     ops.append(("clear",))
     for how in ("ctor", "copy", "deepcopy"):
         ops.append(("copy", how))
@@ -479,9 +512,12 @@ def enabled_ops(state, b):
 
 # label lookups as operations of the history (they may change state the harness does not know
 # by name); small menu: first-match APIs x {a, A} x {None, True, False}, all-match APIs x a x {None, False}
-LOOKUP_OPS = [("lookup", api, l, c) for api in ("get_taxon", "has_taxon_label", "get_taxa_first")
-              for l in ("a", "A") for c in CS3] + \
-             [("lookup", api, "a", c) for api in ("findall", "get_taxa_all", "has_taxa_labels") for c in ("N", "F")]
+def lookup_ops():
+    a = A()
+    return [("lookup", api, l, c) for api in ("get_taxon", "has_taxon_label", "get_taxa_first")
+            for l in a["lookup_first"] for c in CS3] + \
+           [("lookup", api, l, c) for api in ("findall", "get_taxa_all", "has_taxa_labels")
+            for l in a["lookup_all"] for c in ("N", "F")]
 
 
 def is_warm(op):
@@ -497,7 +533,7 @@ def is_warm(op):
 
 def warm_lookups(ns):
     """every lookup API once per label x case rule; results are not judged here"""
-    for l in LABELS:
+    for l in A()["labels"]:
         for c in CS3:
             kw = {"is_case_sensitive": CSVAL[c]}
             try:
@@ -748,7 +784,7 @@ def _light(ns, live, bits, ns_cs, first_match=False):
     except Exception as e:
         fails.append(("all_taxa_bitmask|exception:%s" % type(e).__name__, repr(e)))
     labels = [t._label for t in live]
-    for q in LABELS:
+    for q in A()["labels"]:
         for c in CS3:
             e = eff_cs(c, ns_cs)
             wantl = [live[i] for i in scan(labels, q, e)]
@@ -815,7 +851,7 @@ def check_lookup(state, op, ctx):
     """A label lookup as an operation of the history: judged by the linear scan, must not change
     membership or bits; the successor differs from the state only in fields the harness does not
     know by name (if the library keeps any)."""
-    case = {"kind": "trans", "state": state, "op": op, "py": opstr(op), "pre": pretty(state)}
+    case = {"kind": "trans", "layer": _LAYER[0], "state": state, "op": op, "py": opstr(op), "pre": pretty(state)}
 
     def V(sig, msg):
         ctx.violation(sig, "%s   [state %s; op %s]" % (msg, pretty(state), opstr(op)), case)
@@ -883,7 +919,7 @@ def check_transition(state, op, ctx):
     op = tup(op)
     if op[0] == "lookup":
         return check_lookup(state, op, ctx)
-    case = {"kind": "trans", "state": state, "op": op, "py": opstr(op), "pre": pretty(state)}
+    case = {"kind": "trans", "layer": _LAYER[0], "state": state, "op": op, "py": opstr(op), "pre": pretty(state)}
     s_site = site(op)
     bad = [False]
 
@@ -1057,12 +1093,14 @@ def parse_rendering(s):
     return ("star", _toks(inner))
 
 
-_LABEL_LISTS = [()] + [(x,) for x in LIST_LABELS] + [(x, y) for x in LIST_LABELS for y in LIST_LABELS]
+def label_lists():
+    ll = A()["list"]
+    return [()] + [(x,) for x in ll] + [(x, y) for x in ll for y in ll]
 
 
 def check_state(state, ctx):
     state = norm_state(state)
-    case = {"kind": "state", "state": state, "pre": pretty(state)}
+    case = {"kind": "state", "layer": _LAYER[0], "state": state, "pre": pretty(state)}
 
     def V(sig, msg):
         ctx.violation(sig, "%s   [state %s]" % (msg, pretty(state)), case)
@@ -1117,8 +1155,10 @@ def check_state(state, ctx):
                         bin(m), [t._label for t in back], [labels[i] for i in idxs]))
             except Exception as e:
                 V("bitmask_taxa_list|exception:%s" % type(e).__name__, "bitmask_taxa_list(%s) raised %r" % (bin(m), e))
-            inside = sorted(labels[i] for i in idxs)
-            outside = sorted(labels[i] for i in range(k) if i not in idxs)
+            # an empty label is rendered as an empty token, which cannot be told from "no taxon":
+            # members labelled '' are left out of the comparison of renderings (non-deciding)
+            inside = sorted(labels[i] for i in idxs if labels[i] != "")
+            outside = sorted(labels[i] for i in range(k) if i not in idxs and labels[i] != "")
             for fname in ("bitmask_as_newick_string", "split_as_newick_string"):
                 try:
                     s = getattr(ns, fname)(m)
@@ -1130,7 +1170,7 @@ def check_state(state, ctx):
                     V("%s|unparsable" % fname, "%s(%s) returned %r" % (fname, bin(m), s))
                     continue
                 if p[0] == "star":
-                    good = (r == 0 or r == k) and sorted(p[1]) == sorted(labels)
+                    good = (r == 0 or r == k) and sorted(p[1]) == sorted(l for l in labels if l != "")
                 else:
                     good = sorted(p[1]) == inside and sorted(p[2]) == outside
                 if not good:
@@ -1156,7 +1196,7 @@ def check_state(state, ctx):
         e = eff_cs(c, cs)
         feature = "case-sensitive" if e else "case-insensitive"
         kw = {"is_case_sensitive": CSVAL[c]}
-        for q in QUERY_LABELS:
+        for q in A()["query"]:
             hit = scan(labels, q, e)
             nlook += 5
             try:
@@ -1174,7 +1214,7 @@ def check_state(state, ctx):
                          "get_taxa([%r], is_case_sensitive=%s, first_match_only=True)" % (q, CSVAL[c]))
             except Exception as ex:
                 V("lookup|exception:%s" % type(ex).__name__, "label lookup of %r raised %r" % (q, ex))
-        for ll in _LABEL_LISTS:
+        for ll in label_lists():
             hits = [scan(labels, q, e) for q in ll]
             union = set(i for h in hits for i in h)
             firsts = set(h[0] for h in hits if h)
@@ -1196,7 +1236,7 @@ def check_state(state, ctx):
             except Exception as ex:
                 V("lookup|exception:%s" % type(ex).__name__, "label-list lookup of %r raised %r" % (ll, ex))
     # taxa_bitmask(labels=...) uses the namespace's own rule
-    for ll in _LABEL_LISTS:
+    for ll in label_lists():
         want = 0
         for q in ll:
             for i in scan(labels, q, cs):
@@ -1234,7 +1274,7 @@ def ctor_ops(b):
 def check_ctor(op, ctx):
     op = tup(op)
     _k, seq, as_taxa, cs = op
-    case = {"kind": "ctor", "op": op, "py": opstr(op)}
+    case = {"kind": "ctor", "layer": _LAYER[0], "op": op, "py": opstr(op)}
     bad = [False]
 
     def V(sig, msg, fatal=True):
@@ -1273,10 +1313,11 @@ def check_ctor(op, ctx):
 
 
 def run_starts(chunk, ctx):
+    set_layer(chunk.get("layer", "main"))
     out = []
     for op in chunk["ops"]:
         op = tup(op)
-        ctx.case(("ctor", op), nontrivial=len(op[1]) >= 2)
+        ctx.case(("ctor", _LAYER[0], op), nontrivial=len(op[1]) >= 2)
         ctx.count("transitions")
         ctx.count("constructor_calls")
         s = check_ctor(op, ctx)
@@ -1289,7 +1330,7 @@ def run_starts(chunk, ctx):
 # one BFS level
 
 def _expand_state(state, b, expand, ctx, out, seen_local, pidx):
-    ctx.case(("s", state), nontrivial=len(state[3]) >= 2)
+    ctx.case(("s", _LAYER[0], state), nontrivial=len(state[3]) >= 2)
     ctx.count("states")
     ctx.maximum("members", len(state[3]))
     ctx.maximum("accession_count", state[2])
@@ -1301,6 +1342,10 @@ def _expand_state(state, b, expand, ctx, out, seen_local, pidx):
         ctx.count("states_with_case_variant_labels")
     if not state[1]:
         ctx.count("states_immutable")
+    if _LAYER[0] != "main":
+        ctx.count("empty_label_layer_states")
+    if any(m[0] == "" for m in state[3]):
+        ctx.count("states_with_empty_label")
     # fields of TaxonNamespace / Taxon the harness does not know by name (carried generically)
     ctx.maximum("unknown_namespace_fields_seen", len(set(n for n, _e in state[4] if not n.startswith("taxon["))))
     ctx.maximum("unknown_taxon_fields_seen", len(set(n.split("].", 1)[1] for n, _e in state[4] if n.startswith("taxon["))))
@@ -1313,7 +1358,7 @@ def _expand_state(state, b, expand, ctx, out, seen_local, pidx):
         return
     ops = enabled_ops(state, b)
     for op in ops:
-        ctx.case(("t", state, op), nontrivial=len(state[3]) >= 2)
+        ctx.case(("t", _LAYER[0], state, op), nontrivial=len(state[3]) >= 2)
         ctx.count("transitions")
         if op[0] == "lookup":
             ctx.count("lookup_transitions")
@@ -1331,7 +1376,8 @@ def _expand_state(state, b, expand, ctx, out, seen_local, pidx):
 
 def run_level(chunk, ctx):
     from mc.runner import Ctx
-    b = bounds(chunk["tier"])
+    set_layer(chunk.get("layer", "main"))
+    b = layer_bounds(chunk["tier"], _LAYER[0])
     out = []
     seen_local = set()
     for pidx, state in enumerate(chunk["states"]):
@@ -1365,9 +1411,17 @@ def run_level(chunk, ctx):
 
 
 def explore(tier, runner):
-    b = bounds(tier)
     ctx = runner.ctx
-    res = runner.map("run_starts", [{"ops": ctor_ops(b), "tier": tier}])
+    for layer in ("main", "empty"):
+        set_layer(layer)
+        _explore_layer(tier, runner, layer, "" if layer == "main" else "empty_label_layer_")
+    set_layer("main")
+
+
+def _explore_layer(tier, runner, layer, prefix):
+    b = layer_bounds(tier, layer)
+    ctx = runner.ctx
+    res = runner.map("run_starts", [{"ops": ctor_ops(b), "tier": tier, "layer": layer}])
     parent = {}
     frontier = []
     for s, op in res[0]:
@@ -1375,16 +1429,16 @@ def explore(tier, runner):
             parent[s] = (None, op)
             frontier.append(s)
     frontier.sort()
-    ctx.count("start_states", len(frontier))
+    ctx.count(prefix + "start_states", len(frontier))
     depth = 0
     D = b["depth"]
     while frontier:
         expand = depth < D
         n = b["chunk_states"] if expand else b["chunk_states"] * 12
-        chunks = [{"states": frontier[i:i + n], "expand": expand, "tier": tier, "depth": depth}
+        chunks = [{"states": frontier[i:i + n], "expand": expand, "tier": tier, "depth": depth, "layer": layer}
                   for i in range(0, len(frontier), n)]
-        ctx.count("states_at_depth_%d" % depth, len(frontier))
-        ctx.maximum("depth_completed", depth)
+        ctx.count(prefix + "states_at_depth_%d" % depth, len(frontier))
+        ctx.maximum(prefix + "depth_completed", depth)
         results = runner.map("run_level", chunks)
         new = []
         for ch, res in zip(chunks, results):
@@ -1397,14 +1451,15 @@ def explore(tier, runner):
         depth += 1
         if not expand:
             break
-    # attach the shortest real history (from a constructor call) to every kept witness
+    # attach the shortest real history (from a constructor call) to every kept witness of this layer
     for sig, ent in ctx.viol.items():
         for v in ent["first"]:
             c = v["case"]
-            if isinstance(c, dict) and "state" in c:
+            if isinstance(c, dict) and "state" in c and c.get("layer", "main") == layer and "history" not in c:
                 c["history"] = history(parent, tup(c["state"])) + ([c["py"]] if c.get("kind") == "trans" else [])
-    runner.notes.append("BFS completed to depth %d (every state reached by <= %d operations from a constructor call was "
-                        "checked; states at depth < %d were expanded with the whole alphabet)" % (depth - 1, depth - 1, D))
+    runner.notes.append("%s layer (labels %s): BFS completed to depth %d (every state reached by <= %d operations from a "
+                        "constructor call was checked; states at depth < %d were expanded with the whole alphabet)" % (
+                            layer, list(ALPHA[layer]["labels"]), depth - 1, depth - 1, D))
 
 
 def history(parent, state):
@@ -1422,6 +1477,7 @@ def history(parent, state):
 # ---------------------------------------------------------------------------
 
 def replay(case, ctx):
+    set_layer(case.get("layer", "main"))
     k = case.get("kind")
     if k == "state":
         judged(check_state, norm_state(case["state"]), ctx)
